@@ -94,6 +94,7 @@ type catalogue struct {
 	loc      string // locale the catalogue is loaded for
 	rule     string // whose plural rule the Plural-Forms header carries (SoyPO rule id)
 	alias    bool   // loc != rule: only plural messages are rendered, in Go only
+	tools    bool   // rewritten the way translators' tools leave a catalogue (decoratePO); Go only
 	strategy string // none | idt | rev | partial
 	text     string // PO text
 	bundle   soymsg.Bundle
@@ -473,11 +474,15 @@ func runGroup(ctx0 *core.Ctx, ctx *reporter, cases []*POCase, locales []string, 
 	cats := []*catalogue{{name: "none", strategy: "none"}}
 	type catSpec struct {
 		loc, rule, st string
+		tools         bool
 	}
 	var specs []catSpec
 	for _, loc := range locales {
 		for _, st := range []string{"idt", "rev", "partial"} {
-			specs = append(specs, catSpec{loc, loc, st})
+			specs = append(specs, catSpec{loc, loc, st, false})
+		}
+		if loc == "en" {
+			specs = append(specs, catSpec{loc, loc, "idt", true}, catSpec{loc, loc, "rev", true})
 		}
 	}
 	// the same Plural-Forms header in a catalogue for ANOTHER locale (one that
@@ -486,7 +491,7 @@ func runGroup(ctx0 *core.Ctx, ctx *reporter, cases []*POCase, locales []string, 
 		for _, t := range c.Tr {
 			for _, nm := range t.Names {
 				if nm != t.Loc {
-					specs = append(specs, catSpec{nm, t.Loc, "idt"})
+					specs = append(specs, catSpec{nm, t.Loc, "idt", false})
 				}
 			}
 		}
@@ -520,9 +525,14 @@ func runGroup(ctx0 *core.Ctx, ctx *reporter, cases []*POCase, locales []string, 
 		var buf bytes.Buffer
 		pf.WriteTo(&buf)
 		cat.text = buf.String()
+		if cs.tools {
+			cat.tools = true
+			cat.name += "-tools"
+			cat.text = decoratePO(cat.text, st)
+		}
 		prov, err := pomsg.Load(memOpener{loc: cat.text}, []string{loc})
 		if err != nil {
-			ctx.Violation(core.Sig{Family: "M2-load", Feature: "catalogue-rejected," + st}, "pomsg.Load rejects the translated catalogue: "+err.Error(),
+			ctx.Violation(core.Sig{Family: "M2-load", Feature: "catalogue-rejected," + cat.name}, "pomsg.Load rejects the translated catalogue "+cat.name+": "+err.Error(),
 				map[string]interface{}{"po": trunc(cat.text, 4000)})
 			continue
 		}
@@ -749,7 +759,7 @@ func skipRender(ctx0 *core.Ctx, o *occ, cat *catalogue) bool {
 	if o.c.isPlural() {
 		// the large family of plurals with two-part bodies (tried on the short
 		// list of counts) is not rendered with the partial catalogues
-		return ctx0.Thorough() && len(o.c.Exp) < 10 && cat.strategy == "partial"
+		return ctx0.Thorough() && len(o.c.Exp) < 10 && (cat.strategy == "partial" || cat.tools)
 	}
 	if cat.alias {
 		return true
@@ -908,6 +918,9 @@ func judgeRender(ctx *reporter, backend string, o *occ, cat *catalogue, n int, e
 			tr = "translated"
 		}
 		feat := fmt.Sprintf("%s,%s,%s", tr, kind, o.feat())
+		if cat.tools {
+			feat = fmt.Sprintf("%s,%s,catalogue-as-tools-write-it", tr, kind)
+		}
 		if o.c.isPlural() && cat.np > 0 && translated {
 			feat += fmt.Sprintf(",plural-forms=%d", cat.np)
 			if cat.alias {
@@ -937,6 +950,13 @@ func entryText(cat *catalogue, e *poEntry) string {
 		return ""
 	}
 	needle := "id=" + strconv.FormatUint(e.id, 10)
+	if cat.tools {
+		i := strings.Index(cat.text, needle)
+		if i < 0 {
+			return "(no entry for " + needle + ")"
+		}
+		return trunc(cat.text[:400], 400) + " ... " + trunc(cat.text[max(0, i-200):], 900)
+	}
 	i := strings.Index(cat.text, needle)
 	if i < 0 {
 		return "(no entry for " + needle + ")"
@@ -984,7 +1004,7 @@ func renderJS(ctx *reporter, work string, reg *template.Registry, cats []*catalo
 	var jobs []jsJob
 	refs := map[string][]ref{}
 	for _, cat := range cats {
-		if cat.alias {
+		if cat.alias || cat.tools {
 			continue // soy.$$pluralIndex is the embedder's: nothing of pomsg's rule reaches the JS
 		}
 		job := jsJob{ID: cat.name, Locale: cat.rule}
